@@ -125,7 +125,11 @@ func (db *RockDB) resetWithNewKVValue(ts int64, rawKey []byte, value []byte, ttl
 	if ttl <= 0 {
 		value, err = db.expiration.delExpire(KVType, rawKey, value, true, wb)
 	} else {
-		value, err = db.expiration.rawExpireAt(KVType, rawKey, value, ttl+ts/int64(time.Second), wb)
+		var when int64
+		when, err = expireWhen(ts, ttl)
+		if err == nil {
+			value, err = db.expiration.rawExpireAt(KVType, rawKey, value, when, wb)
+		}
 	}
 	if err != nil {
 		return nil, err
@@ -971,7 +975,11 @@ func (db *RockDB) Expire(ts int64, rawKey []byte, duration int64) (int64, error)
 	if err != nil || v == nil || expired {
 		return 0, err
 	}
-	return db.ExpireAt(KVType, rawKey, v, ts/int64(time.Second)+duration)
+	when, err := expireWhen(ts, duration)
+	if err != nil {
+		return 0, err
+	}
+	return db.ExpireAt(KVType, rawKey, v, when)
 }
 
 func (db *RockDB) Persist(ts int64, rawKey []byte) (int64, error) {
